@@ -39,6 +39,13 @@ pub fn run(args: &[String]) {
             let _ = fh::parameters(512);
         }
         Some("c02time") => super::c02::diag_time(),
+        Some("slotscan") => {
+            let n: usize = args[1].parse().unwrap();
+            let count: u64 = args[2].parse().unwrap();
+            let t0 = std::time::Instant::now();
+            let r = crate::util::slot_seeds_passing_gamma(n, count, &[0, 1, n / 2, n - 1]);
+            println!("{:?} in {:?}", r, t0.elapsed());
+        }
         Some("keygen-scan") => {
             // first NTRU candidate of key generation for seeds LE64(i): extreme coefficients
             use rand::SeedableRng;
